@@ -75,6 +75,15 @@ class Exec(object):
             return then(st)
         if cb is False:
             return orelse(st)
+        # syntactic check against the path condition: a branch whose condition (or its negation)
+        # is already a conjunct of pc is decided
+        pos = z3.simplify(cond).get_id()
+        neg = z3.simplify(z3.Not(cond)).get_id()
+        ids = set(z3.simplify(c).get_id() for c in st.pc[-40:])
+        if pos in ids:
+            return then(st)
+        if neg in ids:
+            return orelse(st)
         s1 = st.fork()
         s1.assume(cond)
         s1.trace.append('T')
@@ -594,7 +603,15 @@ class Exec(object):
             return [(('val', r, s1) if kk == 'next' else (kk, vv, s1)) for kk, vv, s1 in outs]
         if any(k is None for k in n.keys):
             raise Unsupported('dict unpacking')
-        return self.bind(self.eval_list(list(n.keys) + list(n.values), st), go)
+
+        def go_safe(vs, s):
+            try:
+                s0 = s.fork()
+                return go(vs, s)
+            except (TypeError, Unsupported):
+                # heterogeneous literal (payload dicts): an opaque value, only ever handed to contracts
+                return self.val(VOpaque('dictliteral', z3.Int(fresh_name('dictlit'))), s0)
+        return self.bind(self.eval_list(list(n.keys) + list(n.values), st), go_safe)
 
     def ex_UnaryOp(self, n, st, fr):
         def go(v, s):
@@ -709,6 +726,8 @@ class Exec(object):
             if isinstance(h, HObj):
                 if attr in h.fields:
                     return self.val(h.fields[attr], st)
+                if attr == '__class__' and h.pycls is not None:
+                    return self.val(VPy(h.pycls), st)
                 # property or method on the real class?
                 pc = h.pycls
                 if pc is not None:
